@@ -3,19 +3,21 @@ CONFIG = {
     "audit": "BsVerif/Audit/C05.lean",
     "bsv_cmd": "c05",
     "technique": "Lean 4 proofs (induction over call stacks of any depth) about an executable model of the DWARF unwinder "
-                 "(UnwindContext::new/next, register rules, the unwind loop with visited_ips and MAX_UNWIND_DEPTH, restore_registers_at_frame, "
-                 "return_address, get_cfa/frame_info, set_frame_into_focus) + differential correspondence on live debuggees, the model being fed with "
+                 "(UnwindContext::new/next, register rules, the unwind loop with its (ip, CFA) repetition guard, the undefined-return-address end of stack "
+                 "and MAX_UNWIND_DEPTH, restore_registers_at_frame, return_address, get_cfa/frame_info, set_frame_into_focus) + differential "
+                 "correspondence on live debuggees, the model being fed with "
                  "CFI rows decoded by llvm-dwarfdump, raw PTRACE_GETREGS and stack words from /proc/<pid>/mem + the shadow call stack of an "
                  "independent single-step reference tracer as oracle",
-    "level_text": "Proved for every CFI table, memory, object map, register file and every real stack of ANY depth whose CFI is sound (each frame's row "
-                  "recovers the real CFA and return address): the backtrace lists only active frames, innermost first, as a prefix of the real call chain "
-                  "starting at the current pc (C05_backtrace_is_prefix); it is EXACTLY the call chain, cut only by MAX_UNWIND_DEPTH (extracted from the "
-                  "source on every run), when no return address occurs twice (C05_backtrace_is_stack_partial under DistinctReturnAddrs); it never exceeds "
-                  "the depth cap on any input (C05_depth_bound); the return address used by `finish` is the caller's pc (C05_return_address); "
-                  "restore_registers_at_frame(k) succeeds for every existing frame, also in recursion, and yields the stack pointer of activation k "
-                  "(C05_frame_select_sp). The full statements are FALSE of the unchanged code and proved so on witnesses that are replayed on the real "
-                  "debugger: recursion cuts the backtrace at the second occurrence of a return address (C05_backtrace_is_stack_counterexample); "
-                  "restore_registers_at_frame(k) hands out the callee-saved registers of activation k+1 (C05_frame_select_counterexample). "
+    "level_text": "Proved for every CFI table, memory, object map, register file and every real stack of ANY depth, recursion included, whose CFI is sound "
+                  "(each frame's row recovers the real CFA and return address; the stack grows downwards): the backtrace is EXACTLY the real call chain, "
+                  "innermost first, cut only by MAX_UNWIND_DEPTH (extracted from the source on every run) (C05_backtrace_is_stack); it never exceeds the "
+                  "depth cap on any input (C05_depth_bound); the return address used by `finish` is the caller's pc (C05_return_address); selecting frame k "
+                  "puts the context on the k-th real frame (C05_frame_select_ip); restore_registers_at_frame(k) hands out, on EVERY input, the registers "
+                  "the unwinder carried into frame k (C05_frame_select), and on a sound chain it succeeds for every existing frame and the CFI is sound "
+                  "for the rest of the stack from those registers, with the stack pointer of activation k (C05_frame_select_chain, C05_frame_select_sp); "
+                  "frame_info() of the selected frame k reports number k, the real CFA of frame k and the pc of its caller's frame (C05_frame_info). "
+                  "These full statements were FALSE of the code before the repairs 0988b41, d49f39a, 103fb44, 29add38 (see known_findings.txt, `fixed:` "
+                  "lines); their witnesses stay in corpus/C05 and are replayed on the real debugger on every run. "
                   "The model is tied to the real Debugger on every run: at seeded stops (breakpoints after 0..300 continues, single steps through "
                   "prologues/epilogues/calls) of four debuggees (recursion to depth 300, mutual recursion, closures, trait objects, std iterator/sort "
                   "callbacks, one built with frame pointers) backtrace(), set_frame_into_focus(k), frame_info(), restore_registers_at_frame(k) and "
@@ -24,8 +26,7 @@ CONFIG = {
                   "rustc/LLVM/glibc and decoded by gimli (environment); the correspondence run feeds the model with llvm-dwarfdump's decoding of the same "
                   "sections, so a gimli/llvm disagreement on a visited row shows up as a K mismatch. DWARF-expression CFA/register rules are outside the "
                   "model (stops that need one are skipped and counted). Single thread only (every thread is unwound by the same code from its own "
-                  "registers; thread_state is not sampled). The frame_info CFA clause is not a theorem: the code computes it from the innermost "
-                  "registers (known finding, oracle-detected; the model mirrors it). Variable/argument reads above restore_registers_at_frame "
+                  "registers; thread_state is not sampled). Variable/argument reads above restore_registers_at_frame "
                   "(DWARF expression evaluator, frame base) are C06/C19. The model<->code tie is sampling.",
     "trivial_answers": ["ok", "bad-op", "", "no-stop-env", "err"],
     "runs": {"quick": [{"n": 10, "timeout": 900}], "thorough": [{"n": 240, "timeout": 9000}]},
@@ -34,10 +35,10 @@ CONFIG = {
             "(registers, object ranges, CFI rows of the frame pcs, stack words) was obtained without the debugger; distinct = different (request, answer)",
     "assumptions": [
         "the CFI rows are sound for the machine state (hypothesis `Chain` of the theorems): evaluating the row of each frame's pc on the registers recovered so far yields the real CFA and return address",
-        "the outermost frame ends the chain: its row leaves the return-address column undefined (`_start`, `clone`), or the return address has no unwind information",
+        "the outermost frame ends the chain: its row gives the return-address column the rule `undefined` (`_start`, `clone`), or the return address has no unwind information",
+        "the stack grows downwards: the CFA of a caller's frame is strictly greater than its callee's (part of `Chain`)",
         "overflow checks are on (RelocatedAddress::offset panics instead of wrapping; harness builds the library with the dev profile)",
         "DWARF register numbers in rules are below the length of DwarfRegisterMap (154, extracted); larger numbers panic in the code and in the model",
-        "no CFI row assigns the stack-pointer column (hypothesis NoSpRule of C05_frame_select_sp; true of every row met)",
         "x86-64 psABI DWARF register numbering and the text format of llvm-dwarfdump-14 --eh-frame (constants of the harness)",
         "object load addresses equal those of the reference run (ASLR off on both sides), relocation is C18",
     ],
